@@ -338,6 +338,16 @@ func (s *stdSvc) runRequestJournal(test string, rc relayCase, desc func(mOutcome
 		if (before == nil) != (after == nil) || (before != nil && *before != *after) {
 			res.Pushed = append(res.Pushed, before)
 		}
+		// a hop written as a name whose address (but not the name) is known, or the
+		// other way round: the statement does not say which counts - both admissible
+		if !isIPv4Literal(hopHost) {
+			if ip, ok := s.model.cfg.resolve(hopHost); ok {
+				alt := s.model.learned[ip]
+				if (alt == nil) != (after == nil) || (alt != nil && *alt != *after) {
+					res.Pushed = append(res.Pushed, alt)
+				}
+			}
+		}
 	}
 	res.Stamp = s.model.receivedSupport(g.Entry)
 	if desc != nil {
